@@ -119,6 +119,25 @@ func (jenny *Builder) generateBuilder(context languages.Context, builder ast.Bui
 				return jenny.typeFormatter.formatType(typeDef)
 			},
 			"formatRawType": jenny.rawTypeFormatter.formatType,
+			// the class `isinstance()` accepts for the values of a type: annotations such
+			// as `list[str]`, `typing.Literal["a"]`, `typing.Optional[…]` or `None` are not classes
+			"formatRuntimeClass": func(def ast.Type) string {
+				switch {
+				case def.IsArray():
+					return "list"
+				case def.IsMap():
+					return "dict"
+				case def.IsScalar() && def.AsScalar().ScalarKind == ast.KindNull:
+					return "type(None)"
+				case def.IsScalar():
+					return jenny.rawTypeFormatter.formatScalarKind(def.AsScalar().ScalarKind)
+				}
+
+				typeDef := def.DeepCopy()
+				typeDef.Nullable = false
+
+				return jenny.rawTypeFormatter.formatType(typeDef)
+			},
 			"formatRawTypeNotNullable": func(def ast.Type) string {
 				typeDef := def.DeepCopy()
 				typeDef.Nullable = false
